@@ -283,11 +283,14 @@ pub fn relations(args: &Args, s: &mut Summary) {
         let times: Vec<i64> = (0..(2 + rng.below(6))).map(|_| rng.below(5000) as i64 - 500).collect();
         let objs: Vec<(usize, i64)> = (0..n).map(|i| (i, *rng.pick(&times))).collect();
         let mut text = String::from("osu file format v14\n\n[HitObjects]\n");
-        for (i, t) in &objs {
+        let signed_zero = run % 3 == 0;
+        for (i, t0) in &objs {
+            // a third of the runs spell the time 0 sometimes as `-0`: the same point in time
+            let t: String = if signed_zero && *t0 % 2 == 0 && i % 2 == 0 { "-0".into() } else if signed_zero && *t0 % 2 == 0 { "0".into() } else { format!("{t0}") };
             match i % 3 {
                 0 => text.push_str(&format!("{},100,{t},1,0,0:0:0:0:\n", i * 10)),
                 1 => text.push_str(&format!("{},100,{t},2,0,L|{}:100,1,50\n", i * 10, i * 10 + 50)),
-                _ => text.push_str(&format!("{},192,{t},128,0,{}:0:0:0:0:\n", i * 10, t + 100)),
+                _ => text.push_str(&format!("{},192,{t},128,0,{}:0:0:0:0:\n", i * 10, t0 + 100)),
             }
         }
         let r = guarded(&format!("stable order run {run}"), || rosu_map::from_str::<HitObjects>(&text));
@@ -306,7 +309,7 @@ pub fn relations(args: &Args, s: &mut Summary) {
                 if got.len() != n || !sorted {
                     s.mismatch("objects-not-in-time-order", json!({"text": text}));
                 } else if !stable {
-                    s.mismatch("equal-times-not-in-file-order", json!({"n": n, "text": text}));
+                    s.mismatch(if signed_zero { "equal-times-not-in-file-order:signed-zero" } else { "equal-times-not-in-file-order" }, json!({"n": n, "text": text}));
                 }
             }
         }
